@@ -8,23 +8,23 @@ HOOK_COMMITS = ["d85c6ee", "170bde9", "43ffa35", "8043914", "4c6f2d6", "8d2eb59"
 CHECKS = {
  "C20": ("E1-simnet-explorer", "model_checking",
    "three parts: (a) quiescence snapshots after every enumerated call-overlap and single-fault schedule on a real node, (b) explicit-state BFS over the real Server with small capacities against an exact-LRU reference plus a cache-rolling history on a real node, (c) exhaustive enumeration of lookup/put histories on a real node with the statistics counters recomputed from the cached lookups after every step",
-   "(a) every ordered pair of the 13 API calls at every placement of the second call inside the first call's lifetime and every single-fault schedule of every single call is followed by a quiet period, after which the node snapshot must hold no per-call state; (b) all request histories to depth 4 (quick) / 6 (thorough) against Servers with capacities 1..3 and asymmetric shapes, and 1007 lookups over 1003 targets rolling the 1000-entry lookup cache; (c) all 15^3 (quick) / 15^4 (thorough) histories over 5 operations x 3 targets plus a 3-hour refresh timeline, counters compared after every completed lookup. The stores also get one info hash announced to by 24 peers (replies are then samples of the store; the 27th announcer overflows the capacity of 26), and the histories include a target whose lookups nobody answers, looked up twice with one other step before, between or after. Networks of one and two peers with lookups whose target is a peer's id (all 4^3 kind sequences); stores whose immutable and mutable capacities differ.",
+   "(a) every ordered pair of the 13 API calls at every placement of the second call inside the first call's lifetime and every single-fault schedule of every single call is followed by a quiet period, after which the node snapshot must hold no per-call state; (b) all request histories to depth 4 (quick) / 6 (thorough) against Servers with capacities 1..3 and asymmetric shapes, and 1007 lookups over 1003 targets rolling the 1000-entry lookup cache; (c) all 15^3 (quick) / 15^4 (thorough) histories over 5 operations x 3 targets plus a 3-hour refresh timeline, counters compared after every completed lookup. The stores also get one info hash announced to by 24 peers (replies are then samples of the store; the 27th announcer overflows the capacity of 26), and the histories include a target whose lookups nobody answers, looked up twice with one other step before, between or after. Networks of one and two peers with lookups whose target is a peer's id (all 4^3 kind sequences); stores whose immutable and mutable capacities differ. Also histories that return to a target after six idle minutes (expired tokens), and an adaptive node with configured capacities whose stores are filled after it became a server.",
    "Floating-point sums compared with a tolerance scaled by the largest sample seen; an early eviction of the LRU entry is accepted.", "DESIGN.md section 6, C20"),
   "C14": ("E1-simnet-explorer", "model_checking",
    "exhaustive enumeration of single (thorough: pairs of) timeline deviations over multi-hour virtual-time runs of real nodes on the simulated network; oracle from the datagram log at every maintenance boundary",
-   "An observer and four real peers run for 65 (quick) / 180 (thorough) virtual minutes on a private and a public IP plan; every crash / restart-under-a-new-id / observer-lookup at every 5-minute boundary +-1 s and mid-interval, late joiners, observer-before-bootstrap start-up and two-stage crashes are each run to the horizon, and at every boundary the table is compared with who answered whom and when according to the network log.",
+   "An observer and four real peers run for 65 (quick) / 180 (thorough) virtual minutes on a private and a public IP plan; every crash / restart-under-a-new-id / observer-lookup at every 5-minute boundary +-1 s and mid-interval, late joiners, observer-before-bootstrap start-up and two-stage crashes are each run to the horizon, and at every boundary the table is compared with who answered whom and when according to the network log. The observer is also run in the default adaptive mode (promoted to server at its first refresh), steady and with a peer crashing at every placement.",
    "Loss-free network; 'about 20 minutes' read as 21 minutes.", "DESIGN.md section 6, C14"),
   "C01": ("E1-simnet-explorer", "model_checking",
    "exhaustive enumeration of small real-node networks (shapes, join orders, writer/reader pairs, data kinds, IP plans) crossed with every admissible crash set, on the simulated network",
-   "Networks of 1..3 servers + 0..1 clients (quick) / 1..4 + 0..2 (thorough) built by real joins: for every (writer, reader) pair and each of six data kinds the put runs through the public API, the acknowledging set is read from the datagram log, every crash set that leaves an acknowledging node other than the reader alive (and the reader a live contact) is applied in its own world, and the reader's public-API lookup must return the value; variants with a reader lookup already in flight, a lookup 60 s later, two overlapping callers, a reader whose lookup cache for the key predates the last joiner, and a reader with its own put for the key in flight; thorough adds single latency deviations and fixed 20- and 50-node shapes. The plain, two-caller and own-put variants are also run through the blocking Dht API (one helper thread per call, settled inside the simulated world).",
+   "Networks of 1..3 servers + 0..1 clients (quick) / 1..4 + 0..2 (thorough) built by real joins: for every (writer, reader) pair and each of six data kinds the put runs through the public API, the acknowledging set is read from the datagram log, every crash set that leaves an acknowledging node other than the reader alive (and the reader a live contact) is applied in its own world, and the reader's public-API lookup must return the value; variants with a reader lookup already in flight, a lookup 60 s later, two overlapping callers, a reader whose lookup cache for the key predates the last joiner, and a reader with its own put for the key in flight; thorough adds single latency deviations and fixed 20- and 50-node shapes. The plain, two-caller and own-put variants are also run through the blocking Dht API (one helper thread per call, settled inside the simulated world). The unsalted mutable item carries sequence number 0 (the reader's own older one -1).",
    "Honest nodes, latencies below the request timeout; the 50..300-node success-rate clause is statistical and not decided.", "DESIGN.md section 6, C01"),
   "C13": ("E1-simnet-explorer", "model_checking",
    "exhaustive enumeration of join orders, start timings, bootstrap-list shapes and IP plans over networks of real nodes on the simulated network",
-   "Networks of 1..3 (quick) / 1..4 (thorough) real server nodes plus fixed 8- and 20-node shapes: every permutation of id classes over join positions x 5 start timings x 4 bootstrap-list shapes x public/private plan; bootstrapped() results, table contents, strong connectivity of the knows-graph, 'every lookup asks every server' (from the datagram log) and the dead-list verdict are checked on every network. What Info and to_bootstrap() report is compared with each node's state right after the joins and at the end; networks of 1..10 (thorough ..30) nodes are also built by the library's own blocking Testnet::new inside the simulated world and judged the same way. Thorough: 50-, 100- and 300-node networks with the connectivity verdict.",
+   "Networks of 1..3 (quick) / 1..4 (thorough) real server nodes plus fixed 8- and 20-node shapes: every permutation of id classes over join positions x 5 start timings x 4 bootstrap-list shapes x public/private plan; bootstrapped() results, table contents, strong connectivity of the knows-graph, 'every lookup asks every server' (from the datagram log) and the dead-list verdict are checked on every network. What Info and to_bootstrap() report is compared with each node's state right after the joins and at the end; networks of 1..10 (thorough ..30) nodes are also built by the library's own blocking Testnet::new inside the simulated world and judged the same way. Thorough: 50-, 100- and 300-node networks with the connectivity verdict. Every third node's bootstrap list starts with entries that are not addresses; every fourth node's transaction-id counter starts past 65535.",
    "Loss-free network; above 20 joiners only the connectivity verdict (thorough tier: up to 300 nodes).", "DESIGN.md section 6, C13"),
   "C18": ("E1-simnet-explorer", "model_checking",
    "exhaustive enumeration of request kinds, read-only flag assignments and NAT x vote x configuration timelines on real nodes over a simulated network with a virtual clock",
-   "Real client and server nodes on the simulated network: every request kind (valid and every single-field deviation) to a client; scripted requesters with every ro flag value against servers with/without a bootstrap list; every subset of responders / storers flagging ro on lookups and on put acknowledgements; adaptive, explicit-server and public_ip nodes over 35 virtual minutes for every NAT rule and vote pattern (thorough: plus every single lost datagram in the first 10 s). The mode switch, the self ping, the firewalled flag and table contents are read from snapshots and the datagram log. The public Info accessors are compared with that state, and every adaptive / public_ip timeline is run again with the application calling bootstrapped() at minutes 10 and 24. Five vote patterns (the lying minority below / above the true address / true IP with a higher port), a DHT node sharing the observed node's public IP that pings it, and a configured request filter that must still be consulted after the node became a server.",
+   "Real client and server nodes on the simulated network: every request kind (valid and every single-field deviation) to a client; scripted requesters with every ro flag value against servers with/without a bootstrap list; every subset of responders / storers flagging ro on lookups and on put acknowledgements; adaptive, explicit-server and public_ip nodes over 35 virtual minutes for every NAT rule and vote pattern (thorough: plus every single lost datagram in the first 10 s). The mode switch, the self ping, the firewalled flag and table contents are read from snapshots and the datagram log. The public Info accessors are compared with that state, and every adaptive / public_ip timeline is run again with the application calling bootstrapped() at minutes 10 and 24. Five vote patterns (the lying minority below / above the true address / true IP with a higher port), a DHT node sharing the observed node's public IP that pings it, and a configured request filter that must still be consulted after the node became a server. Also a lone bootstrap server with an empty table as the only voter (switch due at the first refresh when nothing is lost) and timelines whose request filter also vetoes the node's own IP.",
    "Tie votes accept either outcome; four voting peers.", "DESIGN.md section 6, C18"),
   "C05": ("E3-enumeration", "exploration",
    "bounded-exhaustive grammar enumeration through the real decoder (catch_unwind) and delivery of the single-deviation neighbourhood to live real nodes on the simulated network, followed by liveness probes",
@@ -56,11 +56,11 @@ CHECKS = {
    "One operation scenario (get then put, 3 endpoints); forged messages from the right address are outside the oracle.", "DESIGN.md section 6, C09"),
   "C12": ("E2-explicit-state", "model_checking",
    "explicit-state BFS over operation sequences whose state is the real RoutingTable plus the virtual clock; invariants on every state, transition relation on every step",
-   "From six initial states (empty, 19/20-node buckets, aged across the 15-minute staleness boundary, stale head with fresh tail) every sequence of up to 5 (quick) / 6 (thorough) operations over a 21-action alphabet (adds that stress the bucket and the per-IP rules, removes, re-keys, clock steps) is executed on the real table; structural and Sybil invariants are checked in every state and the eviction rule across every add.",
+   "From six initial states (empty, 19/20-node buckets, aged across the 15-minute staleness boundary, stale head with fresh tail) every sequence of up to 5 (quick) / 6 (thorough) operations over a 21-action alphabet (adds that stress the bucket and the per-IP rules, removes, re-keys, clock steps) is executed on the real table; structural and Sybil invariants are checked in every state and the eviction rule across every add. Plus two sweeps judged by the same invariants: a five-id family on 26 addresses at both sides of every BEP42 exemption boundary in all 120 add orders, and one node per first-differing bit (160) in three orders; an accepted or re-heard node (alone on its IP) is stamped with the current time even in a full bucket.",
    "Node ids/IPs come from a fixed pool; BEP42 security decided by the independent reference.", "DESIGN.md section 6, C12"),
   "C03": ("E2-explicit-state", "model_checking",
    "explicit-state BFS over request histories on clones of the real Server, reference model in lock-step",
-   "All request histories up to depth 6 (quick) / 8 (thorough) over five sub-alphabets (valid and invalid writes of every kind, token provenance classes, boundary sizes, timestamps around +-45 s, clock steps around the rotation period, request filter) are executed against the real Server through the real codec; every reply and the stored state are compared with a reference model after every transition. Further sub-alphabets: the same announcer announcing again (other port, implied port, newer timestamp), and one info hash with 24 announcers (replies are samples: 1..=20 distinct accepted ones). Sizes that look small in 8 bits (salts 256/300/320, values 1256/1700/1900 bytes); priming steps are judged like every other step.",
+   "All request histories up to depth 6 (quick) / 8 (thorough) over five sub-alphabets (valid and invalid writes of every kind, token provenance classes, boundary sizes, timestamps around +-45 s, clock steps around the rotation period, request filter) are executed against the real Server through the real codec; every reply and the stored state are compared with a reference model after every transition. Further sub-alphabets: the same announcer announcing again (other port, implied port, newer timestamp), and one info hash with 24 announcers (replies are samples: 1..=20 distinct accepted ones). Sizes that look small in 8 bits (salts 256/300/320, values 1256/1700/1900 bytes); priming steps are judged like every other step. announce_peer with implied_port 2 and 255.",
    "States hold real Server clones; capacities 8/4/4 instead of defaults; a selection of the explored histories is replayed byte-for-byte through a full threaded node (E1) to bind the Server-level search to the running system.", "DESIGN.md section 6, C03"),
  "C04": ("E2-explicit-state", "model_checking",
    "explicit-state BFS to a fixpoint over put/get histories on clones of the real Server, BEP44 reference state machine in lock-step",
@@ -68,7 +68,7 @@ CHECKS = {
    "Equal-seq-different-value is treated as unspecified; tokens are always fresh here.", "DESIGN.md section 6, C04"),
  "C15": ("E2-explicit-state", "model_checking",
    "explicit-state BFS over request/clock timelines on clones of the real Server, token-epoch reference in lock-step",
-   "All timelines up to depth 6 (quick) / 8 (thorough) of token-yielding reads, writes presenting tokens of every provenance (own latest/oldest, adversarially close IP, other IP, other server, mutated, resized, empty) and clock steps around the 5-minute rotation are executed against the real Server; must-accept / must-reject / either verdicts follow the statement. One configuration presents a token from each of the 32 addresses that differ from its owner's in exactly one bit.",
+   "All timelines up to depth 6 (quick) / 8 (thorough) of token-yielding reads, writes presenting tokens of every provenance (own latest/oldest, adversarially close IP, other IP, other server, mutated, resized, empty) and clock steps around the 5-minute rotation are executed against the real Server; must-accept / must-reject / either verdicts follow the statement. One configuration presents a token from each of the 32 addresses that differ from its owner's in exactly one bit. Senders without a token probing a stored item (stale seq, failing cas) must get 203, never 301/302.",
    "The 2^32 token values are not enumerated.", "DESIGN.md section 6, C15"),
   "C10": ("E3-enumeration", "exploration",
    "bounded-exhaustive enumeration of message values through the real codec, against an independent strict bencode reader and an independently built wire tree",
@@ -76,15 +76,15 @@ CHECKS = {
    "Trusts the harness' own bencode reader and tree builder (written from the BEPs, sharing no code with the crate).", "DESIGN.md section 6, C10"),
  "C11": ("E3-enumeration", "exploration",
    "bounded-exhaustive enumeration of insertion sequences through the public ClosestNodes/RoutingTable API, against a brute-force sort",
-   "Every subset of a 7-node universe that realises each relation the ordering and the same-IP rule inspect, in every insertion order, for several targets and table ids, plus 21-24 node sets under rotations/transpositions for the K cut and the parameter grid of take_until_secure; exhaustive inside those bounds. Tables with members not heard from for 16 minutes, and the node lists a Server puts in find_node / get_peers / get / get_signed_peers answers for every size relation of its main and signed-peers tables (at most 20, distinct, as full as the tables allow, closest first). For every enumerated table the storage-node selection (closest_secure) must be a prefix of the secure-first order.",
+   "Every subset of a 7-node universe that realises each relation the ordering and the same-IP rule inspect, in every insertion order, for several targets and table ids, plus 21-24 node sets under rotations/transpositions for the K cut and the parameter grid of take_until_secure; exhaustive inside those bounds. Tables with members not heard from for 16 minutes, and the node lists a Server puts in find_node / get_peers / get / get_signed_peers answers for every size relation of its main and signed-peers tables (at most 20, distinct, as full as the tables allow, closest first). For every enumerated table the storage-node selection (closest_secure) must be a prefix of the secure-first order. The node lists of answers that carry data (value, item, peers, signed peers held) equal those of a miss; the insecure id on the shared IP matches 20 of the 21 prefix bits.",
    "Security of ids is decided by the harness' independent BEP42/CRC32C reference.", "DESIGN.md section 6, C11"),
   "C16": ("E3-enumeration", "exploration",
    "bounded-exhaustive enumeration of response streams fed through the real handle's channel, and of replica version assignments x arrival orders on a real node over the simulated network, against a max-fold reference",
-   "Every stream of up to 5 (quick) / 7 (thorough) items over an 8-item alphabet covering gaps, duplicates and ties is delivered to the real sync and async functions by a harness-played actor; in addition a real node looks the key up over 3 scripted replicas under every assignment of 5 versions and every arrival order; exhaustive within those bounds. The live part also runs with one or two earlier callers that take one item and drop their stream, and through the blocking Dht API.",
+   "Every stream of up to 5 (quick) / 7 (thorough) items over an 8-item alphabet covering gaps, duplicates and ties is delivered to the real sync and async functions by a harness-played actor; in addition a real node looks the key up over 3 scripted replicas under every assignment of 5 versions and every arrival order; exhaustive within those bounds. The live part also runs with one or two earlier callers that take one item and drop their stream, and through the blocking Dht API. The live lookups also for a salted item, alone and during the node's own put of it.",
    "Trusts flume FIFO order; authenticity of delivered items is C02's concern.", "DESIGN.md section 6, C16"),
  "C19": ("E3-enumeration", "exploration",
    "bounded-exhaustive input enumeration against an independent reference (model-checking family: every input shape up to a bound)",
-   "Every input class the id arithmetic distinguishes is enumerated completely (all first-differing-bit positions, all short strings over 14 character classes and the 1-2-edit neighbourhood of valid hex strings, the whole masked BEP42 input space) and compared with independent references; exhaustive inside those bounds, nothing sampled.",
+   "Every input class the id arithmetic distinguishes is enumerated completely (all first-differing-bit positions, all short strings over 14 character classes and the 1-2-edit neighbourhood of valid hex strings, the whole masked BEP42 input space) and compared with independent references; exhaustive inside those bounds, nothing sampled. from_ipv4 at boundary and special addresses (0.0.0.0, broadcast, multicast, exemption boundaries).",
    "Trusts rustc/std and the harness' own bitwise CRC32C; ids outside the enumerated fill patterns are covered by the argument that the functions only inspect the prefix/XOR structure.", "DESIGN.md section 6, C19"),
 }
 
